@@ -84,6 +84,17 @@ fn leader_waiter_and_other_key() {
         assert!(mon().calls == 3 && mon().last_req == d, "[C11.key_reusable] after completion or cancellation the next request for the key starts a fresh call");
         std::mem::forget(fresh);
     }
+    // a finished leader that is dropped LATE must not disturb the next flight of its key
+    if leader_result.is_some() {
+        let mut w2 = Box::pin(s.call(a)); // joins the fresh flight started above
+        assert!(mon().calls == 3, "[C11.waiter_causes_no_call] a request arriving while a call for its key is in flight causes no inner call of its own");
+        leader = None; // the old, completed leader future is dropped only now
+        assert!(svc::poll_once(w2.as_mut()).is_pending(), "[C11.stale_leader_drop_harmless] dropping a leader that already completed does not cancel the key's next flight");
+        let w3 = Box::pin(s2.call(a));
+        assert!(mon().calls == 3, "[C11.one_call_per_key] the next flight is still registered: further requests join it");
+        std::mem::forget(w2);
+        std::mem::forget(w3);
+    }
     // the other key was never affected
     assert!(svc::poll_once(other.as_mut()).is_pending() || mon().completed >= 1, "[C11.keys_independent] the other key's call proceeds independently");
     kani::cover!(drop_leader, "leader dropped");
@@ -128,5 +139,46 @@ fn dropped_waiter_is_harmless() {
     assert!(mon().calls == 1, "[C11.one_call_per_key] one inner call per key");
     std::mem::forget(leader);
     std::mem::forget(w2);
+    std::mem::forget(s);
+}
+
+/// A leader that is cancelled while NOBODY waits on it frees its key as well:
+/// the next request for the key is a leader again (its own inner call), not a
+/// waiter on a flight that no longer exists.
+#[kani::proof]
+#[kani::unwind(6)]
+#[kani::stub(catch_unwind, crate::verif_kani::env::catch_unwind_stub)]
+fn lone_leader_dropped_key_reusable() {
+    let (mut s, script) = mk();
+    let a: u32 = kani::any();
+    let b: u32 = kani::any();
+    kani::assume(key_of(&a) == key_of(&b));
+    let _ = svc::poll_ready_once(&mut s);
+    let mut leader = Box::pin(s.call(a));
+    assert!(mon().calls == 1, "[C11.leader_calls_inner] the first request for a key calls the wrapped service");
+    let polled: bool = kani::any();
+    let mut finished = false;
+    if polled {
+        finished = svc::poll_once(leader.as_mut()).is_ready();
+    }
+    drop(leader); // cancelled (or, when it had finished, simply released) with no waiter
+    let _ = svc::poll_ready_once(&mut s);
+    let mut next = Box::pin(s.call(b));
+    assert!(mon().calls == 2 && mon().last_req == b, "[C11.key_reusable] after completion or cancellation the next request for the key starts a fresh call");
+    let mut r = None;
+    let mut k = 0;
+    while k < 2 && r.is_none() {
+        if let Poll::Ready(x) = svc::poll_once(next.as_mut()) {
+            r = Some(x);
+        }
+        k += 1;
+    }
+    if let Some(x) = &r {
+        assert!(!matches!(x, Err(CoalesceError::LeaderCancelled)), "[C11.fresh_leader_not_cancelled] the fresh leader resolves with its own call's result");
+    }
+    assert!(mon().live <= 1, "[C11.one_call_per_key] at most one inner call per key is in flight");
+    kani::cover!(!finished, "leader cancelled before completion");
+    kani::cover!(r.is_some(), "fresh leader resolved");
+    std::mem::forget(next);
     std::mem::forget(s);
 }
